@@ -5,7 +5,7 @@ use crate::{
     reference::znx::{
         ZnxCopy, ZnxNormalizeFinalStep, ZnxNormalizeFinalStepAssign, ZnxNormalizeFinalStepSub, ZnxNormalizeFirstStep,
         ZnxNormalizeFirstStepAssign, ZnxNormalizeFirstStepCarryOnly, ZnxNormalizeMiddleStep, ZnxNormalizeMiddleStepAssign,
-        ZnxNormalizeMiddleStepCarryOnly, ZnxNormalizeMiddleStepSub, ZnxZero,
+        ZnxNormalizeMiddleStepCarryOnly, ZnxNormalizeMiddleStepSub, ZnxZero, znx_normalize_carry_through_empty_limb_ref,
     },
 };
 
@@ -214,9 +214,12 @@ where
 
     let lsh: usize = (base2k - k_rem) % base2k;
 
+    // Number of limbs of res that are shifted out (all of them if steps >= size).
+    let out_range: usize = steps.min(size);
+
     // All limbs of a that would fall outside of the limbs of res are discarded,
     // but the carry still need to be computed.
-    for j in 0..steps {
+    for j in 0..out_range {
         if j == 0 {
             ZNXARI::znx_normalize_first_step_carry_only(base2k, lsh, res.at(res_col, size - j - 1), carry);
         } else {
@@ -224,20 +227,31 @@ where
         }
     }
 
+    // If no limbs were discarded, initialize carry to zero
+    if out_range == 0 {
+        ZNXARI::znx_zero(carry);
+    }
+
+    // Limbs between the last limb of res and the first shifted limb hold no data,
+    // but the carry still travels through them.
+    for _ in size..steps {
+        znx_normalize_carry_through_empty_limb_ref(base2k, carry);
+    }
+
     // Continues with shifted normalization
-    for j in 0..size - steps {
-        ZNXARI::znx_copy(tmp, res.at(res_col, size - steps - j - 1));
+    for j in 0..size - out_range {
+        ZNXARI::znx_copy(tmp, res.at(res_col, size - out_range - j - 1));
         ZNXARI::znx_normalize_middle_step_assign(base2k, lsh, tmp, carry);
         ZNXARI::znx_copy(res.at_mut(res_col, size - j - 1), tmp);
     }
 
     // Propagates carry on the rest of the limbs of res
-    for j in 0..steps {
+    for j in (0..out_range).rev() {
         ZNXARI::znx_zero(res.at_mut(res_col, j));
         if j == 0 {
-            ZNXARI::znx_normalize_final_step_assign(base2k, lsh, res.at_mut(res_col, steps - j - 1), carry);
+            ZNXARI::znx_normalize_final_step_assign(base2k, lsh, res.at_mut(res_col, j), carry);
         } else {
-            ZNXARI::znx_normalize_middle_step_assign(base2k, lsh, res.at_mut(res_col, steps - j - 1), carry);
+            ZNXARI::znx_normalize_middle_step_assign(base2k, lsh, res.at_mut(res_col, j), carry);
         }
     }
 }
@@ -298,6 +312,12 @@ pub fn vec_znx_rsh<R, A, ZNXARI, const OVERWRITE: bool>(
 
     if a_out_range == 0 {
         ZNXARI::znx_zero(carry);
+    }
+
+    // Limbs between the last limb of res and the first shifted limb of a hold no data,
+    // but the carry still travels through them.
+    for _ in res_size..steps {
+        znx_normalize_carry_through_empty_limb_ref(base2k, carry);
     }
 
     if OVERWRITE {
@@ -384,6 +404,12 @@ where
 
     if a_out_range == 0 {
         ZNXARI::znx_zero(carry);
+    }
+
+    // Limbs between the last limb of res and the first shifted limb of a hold no data,
+    // but the carry still travels through them.
+    for _ in res_size..steps {
+        znx_normalize_carry_through_empty_limb_ref(base2k, carry);
     }
 
     let mid_range: usize = res_start.saturating_sub(res_end);
